@@ -581,6 +581,13 @@ func (w *fileWeaver) stmt(outer ast.Stmt) {
 		w.delRange(x.Pos(), x.End())
 		w.ins(x.Pos(), repl)
 	case *ast.DeferStmt:
+		if ptr, m, ok := w.syncLockCall(x.Call); ok && (m == "Lock" || m == "RLock") {
+			// `defer x.Lock()` (re-taking a lock on the way out): the model has to see it like any other acquisition
+			s := w.site(x.Pos(), "dlock")
+			w.delRange(x.Pos(), x.End())
+			w.ins(x.Pos(), fmt.Sprintf("defer func() { simrt.BeforeLock(%s, %s, %s); %s }()", ptr, mode(m), s, w.text(x.Call)))
+			return
+		}
 		if ptr, m, ok := w.syncLockCall(x.Call); ok && (m == "Unlock" || m == "RUnlock") {
 			// `defer x.Unlock()` becomes a deferred literal: model release, real unlock, then a scheduling
 			// point (what runs after a deferred unlock — other defers, the caller — is an interleaving
